@@ -23,7 +23,8 @@ PROP = "C05"
 FAMILIES = ["gauss_cov_scalar", "gauss_cov_vec", "gauss_cov_full", "gauss_prec_full", "gauss_sqrtcov",
             "gauss_sqrtprec", "gauss_sparse_cov", "gauss_sparse_prec", "gmrf_zero", "gmrf_periodic",
             "gmrf_neumann", "gmrf2d", "normal", "gamma", "invgamma", "beta", "laplace", "lognormal",
-            "uniform", "cauchy", "mhn", "user_defined_gauss"]
+            "uniform", "cauchy", "mhn", "gauss_sqrtprec_lower", "gauss_sqrtprec_full", "gauss_sqrtcov_upper",
+            "gauss_sqrtcov_full", "gauss_prec_vec", "user_defined_gauss"]
 
 
 def build_dist(rec):
@@ -45,6 +46,16 @@ def build_dist(rec):
         return D.Gaussian(mean, sqrtcov=np.eye(n) + np.tril(B))
     if fam == "gauss_sqrtprec":
         return D.Gaussian(mean, sqrtprec=np.eye(n) + np.triu(B))
+    if fam == "gauss_sqrtprec_lower":
+        return D.Gaussian(mean, sqrtprec=np.eye(n) + np.tril(B))
+    if fam == "gauss_sqrtprec_full":
+        return D.Gaussian(mean, sqrtprec=np.eye(n) + B)
+    if fam == "gauss_sqrtcov_upper":
+        return D.Gaussian(mean, sqrtcov=np.eye(n) + np.triu(B))
+    if fam == "gauss_sqrtcov_full":
+        return D.Gaussian(mean, sqrtcov=np.eye(n) + B)
+    if fam == "gauss_prec_vec":
+        return D.Gaussian(mean, prec=np.linspace(0.5, 2.0, n))
     if fam == "gauss_sparse_cov":
         return D.Gaussian(mean, sps.diags(np.linspace(0.5, 2.0, n)))
     if fam == "gauss_sparse_prec":
@@ -113,6 +124,35 @@ def named_callable(arg, n, vec):
     return f
 
 
+class LoggedRS(np.random.RandomState):
+    """Caller-owned generator that remembers the standard-normal blocks it handed out."""
+    def __init__(self, seed):
+        super().__init__(seed)
+        self.normals = []
+
+    _depth = 0
+
+    def _rec(self, fn, *a, **k):
+        # numpy's randn() may itself dispatch to self.standard_normal(): record only the outermost call
+        self._depth += 1
+        try:
+            v = fn(*a, **k)
+        finally:
+            self._depth -= 1
+        if self._depth == 0:
+            self.normals.append(np.array(v, copy=True))
+        return v
+
+    def randn(self, *a):
+        return self._rec(super().randn, *a)
+
+    def standard_normal(self, size=None):
+        return self._rec(super().standard_normal, size)
+
+
+GAUSS_MECH = ("gauss_", "gmrf_zero", "gmrf2d", "lognormal")
+
+
 def out_array(o):
     if hasattr(o, "samples"):
         return np.array(o.samples, float)
@@ -179,7 +219,7 @@ class StreamsRun:
             # families whose parameters may be re-assigned later: their solo runs use an untouched twin built from the
             # same constructor arguments (these constructors are deterministic)
             twins[i_] = from_spec(_copy.deepcopy(sp_))
-        g = np.random.RandomState(sc["gseed"])
+        g = LoggedRS(sc["gseed"])
         g0 = g.get_state()
         G0 = np.random.get_state()
         bs = self.b_make()
@@ -194,11 +234,14 @@ class StreamsRun:
             if k.startswith("a_"):
                 a_count += 1
                 pre = g.get_state()
+                n_before = len(g.normals)
                 try:
                     out, _ = self.a_op(op, dists, g, None)
                 except Exception as e:
                     ctx.violate(PROP, "a_op_raised", self.sig(op=k, fam=self._fam(op)), err=type(e).__name__ + ": " + str(e)[:200])
                     continue
+                if k == "a_sample":
+                    self._gaussian_mechanism(op, dists[op["d"]], g, n_before, out)
                 if k == "a_sample" and op["d"] in self.specs:
                     self._fresh_twin_oracle(op, dists[op["d"]], pre, out)
                     if self.touched.get(op["d"]):
@@ -265,6 +308,50 @@ class StreamsRun:
                 ctx.violate(PROP, "interleaved_differs_from_solo", self.sig(client="B", op=op["op"], fam=self._fam(op)), index=i)
                 break
         np.random.set_state(saveG)
+
+    def _gaussian_mechanism(self, op, dist, g, n_before, out):
+        """Gaussian-type families only: the draw is mean + L e for the standard-normal block e the generator handed out,
+        and L must be a square root of the covariance *the object's own log-density reports*:
+        2*(logd(mean) - logd(draw)) == e'e  for every column.  (A mechanism identity under the owned stream - the part of
+        C05's first sentence that is decidable per run; other families' laws are not decided.)"""
+        ctx = self.ctx
+        fam = self._fam(op)
+        if not fam.startswith(GAUSS_MECH) or self.conditional.get(op["d"]):
+            return
+        blocks = g.normals[n_before:]
+        if len(blocks) != 1:
+            ctx.undecided("gaussian draw did not use exactly one standard-normal block")
+            return
+        e = np.asarray(blocks[0], float).reshape(-1, op["N"]) if np.ndim(blocks[0]) > 1 else np.asarray(blocks[0], float).reshape(-1, 1)
+        draws = out.reshape(dist.dim, -1)
+        if e.shape[1] != draws.shape[1]:
+            ctx.undecided("gaussian block shape")
+            return
+        try:
+            if fam == "lognormal":
+                inner = dist._normal
+                ev = lambda x: float(np.ravel(inner.logd(np.log(x)))[0])
+                m = np.asarray(inner.mean, float)
+                l0 = float(np.ravel(inner.logd(m))[0])
+            else:
+                ev = lambda x: float(np.ravel(dist.logd(x))[0])
+                m = np.asarray(dist.mean, float) * np.ones(dist.dim)
+                l0 = ev(m)
+        except Exception as ex:
+            ctx.undecided("gaussian mechanism: logd unavailable " + type(ex).__name__)
+            return
+        for j in range(draws.shape[1]):
+            q = 2 * (l0 - ev(draws[:, j]))
+            ee = float(e[:, j] @ e[:, j])
+            ctx.count("decisions")
+            if not (np.isfinite(q) and core.close(q, ee, 1e-7)):
+                if not np.isfinite(q):
+                    ctx.undecided("gaussian mechanism: non-finite log-density")
+                    return
+                ctx.violate(PROP, "draw_is_not_mean_plus_sqrt_of_own_covariance", self.sig(fam=fam, big=dist.dim > 75),
+                            quad_form=q, ee=ee, N=op["N"])
+                return
+        ctx.hit("gaussian_mechanism_checked")
 
     def _fresh_twin_oracle(self, op, dist, g_state_before, out):
         """An object whose parameters were (re-)assigned must be indistinguishable from one constructed with them."""
